@@ -20,6 +20,7 @@ import XotModel.Lemmas.Fcreation
 import XotModel.Lemmas.FpxDedup
 import XotModel.Lemmas.FhistAtomic
 import XotModel.Lemmas.ArenaExamples
+import XotModel.Lemmas.ArenaStaleExamples
 
 namespace XotModel.Props
 open XotModel
@@ -835,5 +836,125 @@ example : (∀ c ∈ c06XCalls, c.wellKinded) ∧
     c06XStore.xouts c06XCalls = [.ok, .ok, .ok, .ok, .err .notElement, .ok, .err .noElementAtTopLevel, .panic,
       .ok, .ok] ∧
     (c06XStore.xrun c06XCalls).forest.inv = true := by decide +kernel
+
+end XotModel.Props
+
+/-! # ================================================================================================
+    # STALE IDS (branch wt-stale): which arena calls with removed / foreign ids change nothing
+    # ================================================================================================
+
+  Classes of ids and the slot-level conditions `Freed` / `Stale` / `FreedArg` / `OutOfRangeArg`:
+  Lemmas/ArenaStale.lean, ArenaStaleChecked.lean; `Slot.Unlinked`: Lemmas/ArenaStaleMut.lean; the full
+  account of what each call does is in `Props/C04` (section STALE IDS).
+
+  Unchanged — literally the same arena, hence still well-formed — for EVERY arena:
+    * every read accessor and every iterator, whatever the id and the limit, also when it panics;
+    * `checked_*` and the unchecked wrappers with a freed id in either position (`Err(Removed)` resp. the
+      wrapper's `expect` panic), with an id beyond the slot vector (index panic), with the same id twice;
+    * `detach` of an id whose slot has no parent / sibling pointers.
+  NOT unchanged (no refusal exists in indextree 4.7.2, the functions never look at a stamp):
+    * `detach` of an id freed inside a removed subtree (stale pointers are followed and rewritten);
+    * `remove`, `remove_subtree` of a freed id (double free); a STALE id in any call (the new occupant
+      of the slot is operated on and the stale id is stored in its neighbours).
+-/
+
+namespace XotModel.Props
+open XotModel
+
+/-- ⟦C06_arena_stale_unchanged⟧ The calls with removed or foreign ids that change nothing. -/
+theorem C06_arena_stale_unchanged (a : Arena) (x y : Arena.NodeId) (limit : Nat) :
+    -- reads and iterators, every id
+    ((Arena.isRemoved a x).arena = a ∧ (Arena.value a x).arena = a ∧
+      (Arena.ancestors a x limit).arena = a ∧ (Arena.children a x limit).arena = a ∧
+      (Arena.reverseChildren a x limit).arena = a ∧ (Arena.followingSiblings a x limit).arena = a ∧
+      (Arena.precedingSiblings a x limit).arena = a ∧ (Arena.traverse a x limit).arena = a ∧
+      (Arena.reverseTraverse a x limit).arena = a ∧ (Arena.descendants a x limit).arena = a) ∧
+    -- a freed id in either position
+    (y ≠ x → Arena.FreedArg a x y →
+      Arena.checkedAppend a x y = .done a (.error .removed) ∧ Arena.checkedPrepend a x y = .done a (.error .removed) ∧
+      Arena.checkedInsertAfter a x y = .done a (.error .removed) ∧
+      Arena.checkedInsertBefore a x y = .done a (.error .removed) ∧
+      Arena.append a x y = .panic a ∧ Arena.prepend a x y = .panic a ∧ Arena.insertAfter a x y = .panic a ∧
+      Arena.insertBefore a x y = .panic a) ∧
+    -- an id beyond the slot vector
+    (y ≠ x → Arena.OutOfRangeArg a x y →
+      Arena.checkedAppend a x y = .panic a ∧ Arena.checkedPrepend a x y = .panic a ∧
+      Arena.checkedInsertAfter a x y = .panic a ∧ Arena.checkedInsertBefore a x y = .panic a) ∧
+    -- the same id twice, whatever it is
+    (Arena.checkedAppend a x x = .done a (.error .appendSelf) ∧ Arena.checkedPrepend a x x = .done a (.error .prependSelf) ∧
+      Arena.checkedInsertAfter a x x = .done a (.error .insertAfterSelf) ∧
+      Arena.checkedInsertBefore a x x = .done a (.error .insertBeforeSelf)) ∧
+    -- `detach` of an id whose slot has no parent and no siblings
+    (∀ s, a.slot x.index0 = some s → s.Unlinked → Arena.detach a x = .done a ()) := by
+  obtain ⟨h3, _, h5, _, h7, h8, h9, h10, h11, h12⟩ := Arena.iterators_arena a x limit
+  refine ⟨⟨Arena.isRemoved_arena a x, Arena.value_arena a x, h3, h5, h7, h8, h9, h10, h11, h12⟩,
+    fun hne hf => ?_, fun hne ho => ?_,
+    ⟨Arena.checkedAppend_self a x, Arena.checkedPrepend_self a x, Arena.checkedInsertAfter_self a x,
+     Arena.checkedInsertBefore_self a x⟩, fun s hs hu => Arena.detach_unlinked a x s hs hu⟩
+  · exact ⟨Arena.checkedAppend_freed hne hf, Arena.checkedPrepend_freed hne hf, Arena.checkedInsertAfter_freed hne hf,
+      Arena.checkedInsertBefore_freed hne hf, Arena.append_freed hne hf, Arena.prepend_freed hne hf,
+      Arena.insertAfter_freed hne hf, Arena.insertBefore_freed hne hf⟩
+  · exact ⟨Arena.checkedAppend_out_of_range hne ho, Arena.checkedPrepend_out_of_range hne ho,
+      Arena.checkedInsertAfter_out_of_range hne ho, Arena.checkedInsertBefore_out_of_range hne ho⟩
+
+/-- Hence a well-formed arena is still well-formed after any of these calls (it is the same arena). -/
+theorem C06_arena_stale_stays_wf (a : Arena) (w : Arena.Wf a) (x y : Arena.NodeId) (limit : Nat) :
+    Arena.Wf (Arena.isRemoved a x).arena ∧ Arena.Wf (Arena.value a x).arena ∧
+    Arena.Wf (Arena.ancestors a x limit).arena ∧ Arena.Wf (Arena.children a x limit).arena ∧
+    Arena.Wf (Arena.descendants a x limit).arena ∧ Arena.Wf (Arena.traverse a x limit).arena ∧
+    Arena.Wf (Arena.reverseTraverse a x limit).arena ∧
+    (y ≠ x → (Arena.FreedArg a x y ∨ Arena.OutOfRangeArg a x y) →
+      Arena.Wf (Arena.checkedAppend a x y).arena ∧ Arena.Wf (Arena.checkedPrepend a x y).arena ∧
+      Arena.Wf (Arena.checkedInsertAfter a x y).arena ∧ Arena.Wf (Arena.checkedInsertBefore a x y).arena) ∧
+    (∀ s, a.slot x.index0 = some s → s.Unlinked → Arena.Wf (Arena.detach a x).arena) := by
+  obtain ⟨⟨h1, h2, h3, h4, _, _, _, h8, h9, h10⟩, hf, ho, _, hd⟩ := C06_arena_stale_unchanged a x y limit
+  refine ⟨by rw [h1]; exact w, by rw [h2]; exact w, by rw [h3]; exact w, by rw [h4]; exact w, by rw [h10]; exact w,
+    by rw [h8]; exact w, by rw [h9]; exact w, fun hne h => ?_, fun s hs hu => by rw [hd s hs hu]; exact w⟩
+  rcases h with h | h
+  · obtain ⟨e1, e2, e3, e4, _⟩ := hf hne h
+    rw [e1, e2, e3, e4]; exact ⟨w, w, w, w⟩
+  · obtain ⟨e1, e2, e3, e4⟩ := ho hne h
+    rw [e1, e2, e3, e4]; exact ⟨w, w, w, w⟩
+
+/-- Full-strength statement (FALSE): every mutating call with a removed id leaves the arena unchanged. -/
+def C06_arena_stale_unchanged_Statement : Prop :=
+  ∀ (a : Arena) (x : Arena.NodeId), Arena.Wf a → Arena.Removed a x →
+    (Arena.detach a x).arena = a ∧ (Arena.remove a x).arena = a ∧ (Arena.removeSubtree a x).arena = a
+
+/-- It fails for each of the three calls: `detach(4:0)` on `sampleG` / `sampleH` (a slot freed inside a
+    removed subtree), `remove(3:0)` / `remove_subtree(3:0)` on `sampleF` (double free). -/
+theorem C06_arena_stale_unchanged_Statement_false :
+    ¬ C06_arena_stale_unchanged_Statement ∧
+    (Arena.detach Arena.sampleG ⟨4, 0⟩).arena ≠ Arena.sampleG ∧ (Arena.detach Arena.sampleH ⟨4, 0⟩).arena ≠ Arena.sampleH ∧
+    (Arena.remove Arena.sampleF ⟨3, 0⟩).arena ≠ Arena.sampleF ∧
+    (Arena.removeSubtree Arena.sampleF ⟨3, 0⟩).arena ≠ Arena.sampleF := by
+  refine ⟨fun h => ?_, by decide, by decide, by decide, by decide⟩
+  have := (h Arena.sampleF ⟨3, 0⟩ Arena.sampleF_wf (by decide)).2.1
+  revert this
+  decide
+
+/-- Non-vacuity: the hypotheses on closed reachable arenas, and the calls evaluated. -/
+example : Arena.Wf Arena.sampleF ∧ Arena.FreedArg Arena.sampleF ⟨1, 0⟩ ⟨3, 0⟩ ∧ Arena.FreedArg Arena.sampleF ⟨3, 0⟩ ⟨1, 0⟩ ∧
+    Arena.OutOfRangeArg Arena.sampleF ⟨9, 0⟩ ⟨1, 0⟩ ∧
+    (∃ s, Arena.sampleF.slot 2 = some s ∧ s.Unlinked) :=
+  ⟨Arena.sampleF_wf, Or.inr ⟨⟨_, rfl, by decide⟩, ⟨_, rfl, by decide⟩⟩, Or.inl ⟨_, rfl, by decide⟩, Or.inl rfl,
+   ⟨_, rfl, by decide⟩⟩
+
+example : Arena.checkedInsertAfter Arena.sampleF ⟨1, 0⟩ ⟨3, 0⟩ = .done Arena.sampleF (.error .removed) ∧
+    Arena.checkedPrepend Arena.sampleF ⟨3, 0⟩ ⟨1, 0⟩ = .done Arena.sampleF (.error .removed) ∧
+    Arena.checkedInsertBefore Arena.sampleF ⟨9, 0⟩ ⟨1, 0⟩ = .panic Arena.sampleF ∧
+    Arena.insertBefore Arena.sampleF ⟨1, 0⟩ ⟨3, 0⟩ = .panic Arena.sampleF ∧
+    Arena.detach Arena.sampleF ⟨3, 0⟩ = .done Arena.sampleF () ∧
+    Arena.detach Arena.sampleG ⟨2, 0⟩ = .done Arena.sampleG () := by decide
+
+/-- A STALE id is not refused, in either position (`sampleC`: slot 1 reused, `2:0` stale, `2:1` live): as
+    `self` of `checked_append` the new occupant `2:1` receives the child, whose `parent` pointer is the
+    stale id; as the new sibling (`checked_insert_before`, example further up) the new occupant is
+    moved and the stale id is stored in the neighbour — the arena is no longer well-formed. -/
+example : Arena.eitherRemoved Arena.sampleC ⟨2, 0⟩ ⟨3, 0⟩ = .done Arena.sampleC false ∧
+    (match Arena.checkedAppend Arena.sampleC ⟨2, 0⟩ ⟨3, 0⟩ with
+     | .done a' (.ok ()) => !a'.wf && (a'.get ⟨3, 0⟩).map (·.parent) == some (some ⟨2, 0⟩) &&
+         (a'.get ⟨2, 1⟩).map (·.first) == some (some ⟨3, 0⟩)
+     | _ => false) = true := by decide
 
 end XotModel.Props
